@@ -11,6 +11,12 @@
 //	w<i>  WriteValue of a fresh update (starts a critical section if none is in flight)
 //	c<i>  PreCommit+Commit of the section in flight        a<i>  Abort of the section in flight
 //	t<i>  one broadcast tick of replica i                  x<i>  X commits a fresh update and sends its state to i
+//	b<i>  begin a broadcast round of replica i and hold all its calls on the wire (every peer is reached
+//	      through a gate: a forwarding RPC service in front of a real replica, X's own handler)
+//	e<i>  deliver the held calls of the round and wait until broadcast() has returned
+//
+// Between b<i> and e<i> every other move is allowed (w/c/a on i, x<i>, anything on other replicas) except
+// another tick of i (one goroutine runs broadcast).  At most Holds rounds per execution are held.
 //
 // After every move the worker waits until all asynchronously received states have been merged (see
 // worker.go settle) and reports ReadValue of every replica, the snapshot every replica would hand to a
@@ -54,6 +60,8 @@ var (
 )
 
 var batchNanos, batchCount, batchMoves atomic.Int64
+var mu sync.Mutex // guards the few plain counters of this package
+var silentHoldsTotal atomic.Int64
 
 const maxExecsPerWorker = 1500
 
@@ -204,6 +212,7 @@ type config struct {
 	N     int    `json:"replicas"`
 	VT    string `json:"value_type"`
 	Depth int    `json:"depth"`
+	Holds int    `json:"inflight_rounds"` // how many broadcast rounds per execution may be held in flight (b/e moves)
 }
 
 type failure struct{ key, what string }
@@ -217,6 +226,15 @@ type engine struct {
 	// planning state: enough to know which moves are enabled and which update id comes next
 	planSeq      []int
 	planInflight []bool
+	planRound    []bool // a b move of the replica has not been ended yet
+	planArmed    []bool // prediction: the replica owes its peers a broadcast (a round would send something)
+	planRearmed  []bool // prediction: the replica wrote or committed since its open round began
+	planHolds    int    // b moves used
+
+	round            []bool // the replica's broadcast round is in flight (calls held on the wire)
+	pendingSent      []set  // the snapshot that round carries
+	committedInRound set    // updates committed while a round of their owner was in flight
+	silentHolds      int    // b moves whose broadcast() returned without sending (prediction planArmed was wrong)
 
 	committed       []set // own updates of committed sections, per replica
 	inflight        []set // own updates of the section in flight, per replica
@@ -238,7 +256,8 @@ func newEngine(cfg config, sl *slot) *engine {
 	n := cfg.N
 	return &engine{cfg: cfg, sl: sl, committed: make([]set, n), inflight: make([]set, n), recvd: make([]set, n),
 		recvdInSection: make([]set, n), stable: make([]set, n), xsent: make([]set, n),
-		planSeq: make([]int, n+1), planInflight: make([]bool, n)}
+		planSeq: make([]int, n+1), planInflight: make([]bool, n), planRound: make([]bool, n), planArmed: make([]bool, n),
+		planRearmed: make([]bool, n), round: make([]bool, n), pendingSent: make([]set, n)}
 }
 
 func (e *engine) envFail(err error, resp *response) error {
@@ -286,7 +305,16 @@ func (e *engine) enabled() []move {
 		if e.planInflight[i] {
 			out = append(out, move{kind: "c", i: i}, move{kind: "a", i: i})
 		}
-		out = append(out, move{kind: "t", i: i})
+		if e.planRound[i] {
+			out = append(out, move{kind: "e", i: i})
+		} else {
+			out = append(out, move{kind: "t", i: i})
+			// holding a round that would send nothing is the same as not ticking: only offered when the
+			// replica owes a broadcast (a prediction; a wrong one is counted, see silent_holds)
+			if e.planArmed[i] && e.planHolds < e.cfg.Holds {
+				out = append(out, move{kind: "b", i: i})
+			}
+		}
 		if e.planSeq[e.cfg.N] < stride {
 			out = append(out, move{kind: "x", i: i})
 		}
@@ -311,8 +339,21 @@ func (e *engine) plan(m move) move {
 		m.id = m.i*stride + e.planSeq[m.i]
 		e.planSeq[m.i]++
 		e.planInflight[m.i] = true
-	case "c", "a":
+		e.planArmed[m.i], e.planRearmed[m.i] = true, true
+	case "c":
 		e.planInflight[m.i] = false
+		e.planArmed[m.i], e.planRearmed[m.i] = true, true
+	case "a":
+		e.planInflight[m.i] = false
+	case "t":
+		e.planArmed[m.i] = false
+	case "b":
+		e.planRound[m.i] = true
+		e.planRearmed[m.i] = false
+		e.planHolds++
+	case "e":
+		e.planRound[m.i] = false
+		e.planArmed[m.i] = e.planRearmed[m.i]
 	case "x":
 		m.id = n*stride + e.planSeq[n]
 		e.planSeq[n]++
@@ -323,7 +364,7 @@ func (e *engine) plan(m move) move {
 // exec performs the planned moves on the real instances (one request to the worker) and judges the
 // observations move by move.  newExec creates fresh instances first.
 func (e *engine) exec(newExec bool, ms []move, inSuffix bool) (*failure, error) {
-	rq := request{Op: "run", New: newExec, N: e.cfg.N, VT: e.cfg.VT}
+	rq := request{Op: "run", New: newExec, N: e.cfg.N, NX: 1, VT: e.cfg.VT}
 	for _, m := range ms {
 		rq.Moves = append(rq.Moves, mv{Kind: m.kind, I: m.i, ID: m.id})
 	}
@@ -384,9 +425,39 @@ func (e *engine) judge(m move, resp *step, inSuffix bool) *failure {
 	case "w":
 		e.inflight[m.i] |= 1 << uint(m.id)
 	case "c":
+		if e.round[m.i] {
+			e.committedInRound |= e.inflight[m.i]
+		}
 		e.committed[m.i] |= e.inflight[m.i]
 		e.inflight[m.i] = 0
 		e.recvdInSection[m.i] = 0
+	case "b":
+		e.tickedInSection |= e.inflight[m.i]
+		if resp.InFlight {
+			// every call of the round is on the wire: nothing has been delivered anywhere yet
+			e.round[m.i] = true
+			e.pendingSent[m.i] = 0
+			for _, l := range resp.XLog {
+				e.pendingSent[m.i] |= mkset(l)
+			}
+		} else {
+			e.silentHolds++
+			silentHoldsTotal.Add(1)
+		}
+	case "e":
+		if e.round[m.i] {
+			// the held calls are delivered: every peer receives the round's snapshot, the replies (each
+			// peer's snapshot now, X's committed state now) land at the sender
+			for j := 0; j < n; j++ {
+				if j != m.i {
+					e.land(j, e.pendingSent[m.i])
+					e.land(m.i, prevStable[j])
+				}
+			}
+			e.land(m.i, e.xstate)
+			e.round[m.i] = false
+			e.pendingSent[m.i] = 0
+		}
 	case "a":
 		e.aborted |= e.inflight[m.i]
 		e.inflight[m.i] = 0
@@ -439,6 +510,11 @@ func (e *engine) judge(m move, resp *step, inSuffix bool) *failure {
 		s := mkset(l)
 		e.xgot |= s
 		if f := snap(m.i, s, "broadcast"); f != nil {
+			return f
+		}
+	}
+	for _, l := range resp.GLog {
+		if f := snap(m.i, mkset(l), "broadcast"); f != nil {
 			return f
 		}
 	}
@@ -497,8 +573,9 @@ func (e *engine) land(i int, s set) {
 	}
 }
 
-// suffix: updates stop; every section still in flight commits; X delivers its state to every replica
-// (as its own broadcast eventually would); three rounds of ticks everywhere.  Then all replicas must
+// suffix: updates stop; every section still in flight commits; broadcast rounds still in flight are
+// delivered and end; X delivers its state to every replica (as its own broadcast eventually would);
+// three rounds of ticks everywhere.  Then all replicas must
 // read the join of all committed updates, and X must have been handed every committed update.
 func (e *engine) suffix(newExec bool) (*failure, error) {
 	n := e.cfg.N
@@ -507,6 +584,11 @@ func (e *engine) suffix(newExec bool) (*failure, error) {
 	for i := 0; i < n; i++ {
 		if e.planInflight[i] {
 			ms = append(ms, e.plan(move{kind: "c", i: i}))
+		}
+	}
+	for i := 0; i < n; i++ {
+		if e.planRound[i] {
+			ms = append(ms, e.plan(move{kind: "e", i: i}))
 		}
 	}
 	if e.planSeq[n] > 0 {
@@ -535,11 +617,14 @@ func (e *engine) suffix(newExec bool) (*failure, error) {
 			owner := u / stride
 			key := "committed-update-undelivered/other"
 			why := ""
-			if e.tickedInSection&(1<<uint(u)) != 0 {
+			if e.committedInRound&(1<<uint(u)) != 0 {
+				key = "committed-update-undelivered/commit-while-broadcast-round-in-flight"
+				why = fmt.Sprintf(" (replica %d committed %s while one of its broadcast rounds was on the wire; the acknowledgements of that round, which carried the older state, used up the broadcast credit of the commit; needBroadcastCount is now %d)", owner, updName(u), e.last.Dumps[min(owner, n-1)].NBC)
+			} else if e.tickedInSection&(1<<uint(u)) != 0 {
 				key = "committed-update-undelivered/tick-between-write-and-commit"
 				why = fmt.Sprintf(" (replica %d ticked while %s was in flight: the tick used up the broadcast credit armed by WriteValue and Commit does not re-arm it; needBroadcastCount is now %d)", owner, updName(u), e.last.Dumps[min(owner, n-1)].NBC)
 			}
-			return &failure{key, fmt.Sprintf("after [%s] + suffix(commit sections in flight, X to all, 3 rounds of ticks): replica %d reads %v, committed updates are %v: %v never arrived%s", moves, i, rd, want, missing, why)}, nil
+			return &failure{key, fmt.Sprintf("after [%s] + suffix(commit sections in flight, end rounds in flight, X to all, 3 rounds of ticks): replica %d reads %v, committed updates are %v: %v never arrived%s", moves, i, rd, want, missing, why)}, nil
 		}
 		if extra := rd &^ want; extra != 0 {
 			return &failure{"uncommitted-update-in-final-state", fmt.Sprintf("after [%s] + suffix: replica %d reads %v, committed updates are %v", moves, i, rd, want)}, nil
@@ -548,7 +633,9 @@ func (e *engine) suffix(newExec bool) (*failure, error) {
 	if missing := all &^ e.xgot; missing != 0 {
 		u := missing.first()
 		key := "committed-update-undelivered/other"
-		if e.tickedInSection&(1<<uint(u)) != 0 {
+		if e.committedInRound&(1<<uint(u)) != 0 {
+			key = "committed-update-undelivered/commit-while-broadcast-round-in-flight"
+		} else if e.tickedInSection&(1<<uint(u)) != 0 {
 			key = "committed-update-undelivered/tick-between-write-and-commit"
 		}
 		return &failure{key, fmt.Sprintf("after [%s] + suffix: peer X was never handed %v (committed: %v, X received: %v)", moves, missing, all, e.xgot)}, nil
@@ -593,10 +680,11 @@ func (e *engine) stateKey() string {
 		parts := make([]string, n)
 		for i := 0; i < n; i++ {
 			d := e.last.Dumps[i]
-			parts[p[i]] = fmt.Sprintf("v%x o%x h%v n%d q%d|c%x f%x r%x rs%x st%x xs%x s%d|", ren(mkset(d.Value)), ren(mkset(d.Old)), d.HasOld, d.NBC, d.Queue,
-				ren(e.committed[i]), ren(e.inflight[i]), ren(e.recvd[i]), ren(e.recvdInSection[i]), ren(e.stable[i]), ren(e.xsent[i]), e.planSeq[i])
+			parts[p[i]] = fmt.Sprintf("v%x o%x h%v n%d q%d|c%x f%x r%x rs%x st%x xs%x s%d|R%v%v p%x P%v%v%v|", ren(mkset(d.Value)), ren(mkset(d.Old)), d.HasOld, d.NBC, d.Queue,
+				ren(e.committed[i]), ren(e.inflight[i]), ren(e.recvd[i]), ren(e.recvdInSection[i]), ren(e.stable[i]), ren(e.xsent[i]), e.planSeq[i],
+				e.round[i], e.planRound[i], ren(e.pendingSent[i]), e.planArmed[i], e.planRearmed[i], e.planInflight[i])
 		}
-		k := strings.Join(parts, "") + fmt.Sprintf("A%x X%x G%x T%x s%d", ren(e.aborted), e.xstate, ren(e.xgot), ren(e.tickedInSection), e.planSeq[n])
+		k := strings.Join(parts, "") + fmt.Sprintf("A%x X%x G%x T%x C%x s%d h%d", ren(e.aborted), e.xstate, ren(e.xgot), ren(e.tickedInSection), ren(e.committedInRound), e.planSeq[n], e.planHolds)
 		if best == "" || k < best {
 			best = k
 		}
@@ -700,10 +788,11 @@ func body(cfg config) func(c *explore.Ctx) {
 }
 
 type replay struct {
-	Key   string   `json:"key"`
-	Cfg   config   `json:"config"`
-	Moves []string `json:"moves"`
-	What  string   `json:"what"`
+	Key   string     `json:"key"`
+	Cfg   config     `json:"config"`
+	Moves []string   `json:"moves,omitempty"`
+	Stall *stallCase `json:"stall,omitempty"` // a script of the silent-peers configuration instead of a move list
+	What  string     `json:"what"`
 }
 
 // minimise removes moves one at a time as long as the same key is still reported (3 out of 3 runs each).
@@ -754,10 +843,11 @@ func latencies() map[string]int64 {
 
 func plan(thorough bool) []config {
 	if !thorough {
-		return []config{{N: 2, VT: "gcounter", Depth: 6}}
+		return []config{{N: 2, VT: "gcounter", Depth: 6, Holds: 1}}
 	}
 	// cheapest first: each run gets an equal share of the time left, the last one inherits the rest
-	return []config{{N: 2, VT: "aworset", Depth: 6}, {N: 2, VT: "lww", Depth: 6}, {N: 3, VT: "gcounter", Depth: 6}, {N: 2, VT: "gcounter", Depth: 8}}
+	return []config{{N: 2, VT: "aworset", Depth: 6, Holds: 1}, {N: 2, VT: "lww", Depth: 6, Holds: 1}, {N: 3, VT: "gcounter", Depth: 6, Holds: 1},
+		{N: 2, VT: "gcounter", Depth: 7, Holds: 2}, {N: 2, VT: "gcounter", Depth: 8, Holds: 1}}
 }
 
 func TestCheck(t *testing.T) {
@@ -772,6 +862,9 @@ func TestCheck(t *testing.T) {
 			"the broadcast ticker is replaced by explicit tick moves (interval option 24 h; the accessor calls the unchanged private broadcast())",
 			"interleavings are at the granularity of resource operations, ticks and complete ReceiveValue calls; goroutine interleavings inside one broadcast/merge are not enumerated",
 			"the scripted peer X answers like a peer inside a long critical section: its replies carry its own committed updates only",
+			"a held round (b..e) holds every call of the round before delivery (gates: a forwarding RPC service in front of each real replica, X's own handler); e delivers all of them at once",
+			"b is offered only where the bookkeeping predicts that the replica owes a broadcast (a held round that sends nothing equals no tick); wrong predictions are counted in silent_holds",
+			"silent-peers configuration: a round is judged wedged only after 6 s (150 x the 40 ms send timeout) with the broadcast goroutine parked in a select then and 1.5 s later; slower-but-returning rounds discard the execution",
 			"sections still in flight when the moves end are committed at the start of the suffix",
 		}
 		if env.Replay != nil {
@@ -781,6 +874,19 @@ func TestCheck(t *testing.T) {
 			}
 			sl := &slot{}
 			defer sl.drop()
+			if r.Stall != nil {
+				curN = 2
+				stride = 6
+				f, out, err := runStall(sl, *r.Stall)
+				res.Coverage = map[string]any{"evaluations": 1, "distinct_nontrivial": 0, "rule": "replay of one silent-peers script", "samples": []any{r.Stall.String() + " => " + out}}
+				if err != nil {
+					res.Coverage["env_error"] = "environment failure (discarded, not a verdict)"
+				}
+				if f != nil {
+					res.Violations = append(res.Violations, hres.Viol{Key: f.key, What: f.what, Replay: replay{Key: f.key, Stall: r.Stall, What: f.what}})
+				}
+				return res
+			}
 			curN = r.Cfg.N
 			setStride(r.Cfg)
 			f, out, err := runNamed(r.Cfg, sl, r.Moves)
@@ -801,6 +907,49 @@ func TestCheck(t *testing.T) {
 		distinct := 0
 		exhaustive := true
 		var divergences, pruned int64
+		{
+			// silent-peers configuration (stall.go): 16 scripts, cheap on a tree that does not wedge
+			curN, stride = 2, 6
+			var smu sync.Mutex
+			var slots []*slot
+			wk := env.Workers
+			if wk > 4 {
+				wk = 4
+			}
+			st := explore.Run(stallBody, explore.Options{Workers: wk, Deadline: time.Now().Add(time.Until(env.Deadline) / 3), Samples: 2,
+				Setup: func(w int) any {
+					s := &slot{}
+					smu.Lock()
+					slots = append(slots, s)
+					smu.Unlock()
+					return s
+				}})
+			for _, s := range slots {
+				if s.w != nil {
+					s.w.kill()
+				}
+			}
+			evals += st.Executions
+			distinct += st.Outcomes
+			divergences += st.Divergences
+			exhaustive = exhaustive && st.Exhaustive
+			for _, s := range st.Samples {
+				samples = append(samples, map[string]any{"config": "silent-peers", "choices": s.Choices, "outcome": s.Outcome})
+			}
+			for _, v := range st.Violations {
+				if _, ok := viol[v.Key]; ok {
+					continue
+				}
+				sc, _ := v.Detail.(stallCase)
+				viol[v.Key] = hres.Viol{Key: v.Key, What: v.What, Replay: replay{Key: v.Key, Stall: &sc, What: v.What}}
+			}
+			mu.Lock()
+			maxMs := stallMaxRoundMs
+			mu.Unlock()
+			runs = append(runs, map[string]any{"config": "silent-peers: replicas 0,1 + scripted X0,X1, send timeout 40 ms, wedge bound 6000+1500 ms", "executions": st.Executions,
+				"distinct_outcomes": st.Outcomes, "exhaustive": st.Exhaustive, "cap_hit": st.CapHit, "divergences": st.Divergences, "wall_s": st.WallS,
+				"violation_keys": len(st.Violations), "longest_round_ms": maxMs})
+		}
 		for i, cfg := range cfgs {
 			curN = cfg.N
 			setStride(cfg)
@@ -884,7 +1033,7 @@ func TestCheck(t *testing.T) {
 		res.Coverage = map[string]any{
 			"evaluations":         evals,
 			"distinct_nontrivial": distinct,
-			"rule": "every sequence of at most Depth moves {w,c,a,t,x} x replica on real NewCRDT instances (plus the scripted peer X), each followed by the fair suffix; " +
+			"rule": "every sequence of at most Depth moves {w,c,a,t,x,b,e} x replica on real NewCRDT instances (plus the scripted peer X; b/e = begin/end a broadcast round whose calls are held on the wire, at most inflight_rounds per execution), each followed by the fair suffix; plus the 16 scripts of the silent-peers configuration; " +
 				"a branch is cut when the complete state (accessor dump of every instance + oracle bookkeeping) was already expanded with at least as many moves left; " +
 				"distinct = distinct (final reads, committed sets, aborted set, X's updates) tuples observed after the suffix",
 			"samples":                 samples,
@@ -897,6 +1046,7 @@ func TestCheck(t *testing.T) {
 			"env_error_sample":        es,
 			"worker_restarts":         workerRestarts.Load(),
 			"worker_requests":         latencies(),
+			"silent_holds":            silentHoldsTotal.Load(),
 			"update_names":            "u<owner>.<k> = k-th update of replica <owner> (owner = number of replicas: the scripted peer X)",
 		}
 		return res
